@@ -316,7 +316,8 @@ def run_worker(case: dict) -> Outcome:
         band = "after-expiry"
         if ex:
             out.v("expired-executed", f"{tag}: actor ran at {ex[0].t0:.6f}", broker=case["broker"])
-        if places != ["dead"] and not tr.horizon_hit:
+        # (also when the scenario ran into its horizon, 12 s after the worker started: that is far beyond any pickup latency)
+        if places != ["dead"]:
             out.v("expired-not-dead", f"{tag}: final places {places}", broker=case["broker"])
     elif ex and ex[0].t0 > expiry + slack + 2.0:
         out.v("expired-executed", f"{tag}: actor ran at {ex[0].t0:.6f}, long after expiry", broker=case["broker"])
@@ -326,7 +327,7 @@ def run_worker(case: dict) -> Outcome:
             out.v("live-not-executed", f"{tag}: actor never ran; places {places}", broker=case["broker"])
         if "dead" in places:
             out.v("live-dead-lettered", f"{tag}: dead-lettered", broker=case["broker"])
-    if not tr.execs_of("live") and not tr.horizon_hit:
+    if not tr.execs_of("live"):
         out.v("live-not-executed", f"job without ttl never ran; places {[p.kind for p in tr.final.get('live', [])]}", broker=case["broker"])
     out.cls("broker-" + case["broker"], "band-" + band)
     out.nontrivial = band != "unconstrained"
